@@ -39,8 +39,11 @@ Theorem C18_timers_run_out : forall n s, Down s -> G (mm s) -> (length (forgets 
 Proof. exact timers_run_out. Qed.
 Print Assumptions C18_timers_run_out.
 
-(* other contexts in the same process are unaffected: whatever is done to one context (shutdown included), the other
-   one's state and outputs are those of running on its own events alone *)
+(* other contexts in the same process: NOTE — these two statements restate the definition of [step2] (a pair of
+   states with no shared component; an event addressed to one context is applied to that component only), so no
+   definition of [step] could falsify them.  They record that the model has no process-wide state; the evidence that
+   the implementation has none that matters (module globals, the shared event loop's timer queue) is the bystander
+   context of the correspondence run and the survivor check of the twoctx stream, not these theorems. *)
 Theorem C18_contexts_independent_state : forall es a b,
   fst (fst (run2 (a, b) es)) = fst (run a (events_of false es)) /\
   snd (fst (run2 (a, b) es)) = fst (run b (events_of true es)).
@@ -78,8 +81,9 @@ Print Assumptions C18_unsettled_requests_are_outstanding.
    events, datagrams included) and every [after] (in-scope events), where the only conditions are on the event lists
    themselves (Shutdown is not called twice, request labels are distinct, fewer than 2^64 tokens are drawn):
    the Shutdown step cancels every handler and fails every table entry with a library error and returns; every
-   request ever submitted is settled by then; afterwards nothing is sent, raised, delivered or started; the remaining
-   timers run out. *)
+   request ever submitted (ClientRequest or ClientRequestSlow) is settled by then — or is still inside Context.request's
+   remote lookup, where no table knows it (open finding C18:resolving-request-left-hanging; see the two statements below);
+   afterwards nothing is sent, raised, delivered or started; the remaining timers run out. *)
 Theorem C18_shutdown_at_any_moment : forall u m t before after, wf_history t before after ->
   let s := fst (run (init u m t) before) in
   let outs := concat (snd (run (init u m t) before)) in
@@ -87,11 +91,31 @@ Theorem C18_shutdown_at_any_moment : forall u m t before after, wf_history t bef
   let out := snd (step s Shutdown) in
   out = map (fun i => OHCancel (i_h i)) (ilist (tm s)) ++ flat_map shutdown_outcome (olist (tm s)) ++ [OShutdownDone] /\
   forallb lib_outcome out = true /\
-  (forall q r mt ob, In (ClientRequest q r mt ob) before -> exists o, In o (outs ++ out) /\ settles ob q o = true) /\
+  (forall q ob, In (q, ob) (reqs_of before) ->
+     (exists o, In o (outs ++ out) /\ settles ob q o = true) \/
+     (exists x, In x (resolving (tm s')) /\ rlabel x = q /\ snd x = ob)) /\
   forallb (forallb quiet) (snd (run s' after)) = true /\
   pending (mm (fst (run (fst (run s' after)) (repeat Fire (length (forgets (mm (fst (run s' after))))))))) = [].
 Proof. exact shutdown_at_any_moment. Qed.
 Print Assumptions C18_shutdown_at_any_moment.
+(* what the code guarantees for a request whose remote lookup outlives shutdown: it fails with LibraryShutdown at the
+   moment the lookup returns *)
+Theorem C18_resolved_after_shutdown_fails : forall s q r mt ob, outgoing (tm s) = None ->
+  find (fun x => fst (fst (fst x)) =? q) (resolving (tm s)) = Some (q, r, mt, ob) ->
+  snd (step s (Resolved q)) = OFail q LibraryShutdown :: (if ob then [OObsEnd q NotObservable] else []) /\
+  ~ In q (map rlabel (resolving (tm (fst (step s (Resolved q)))))).
+Proof. exact resolved_after_shutdown. Qed.
+Print Assumptions C18_resolved_after_shutdown_fails.
+(* ... and what it does not: until then the request has no outcome, whatever time passes (refutes the reading "every
+   outstanding request terminates within the shutdown time-out"; replayed on the implementation by the corpus) *)
+Theorem C18_resolving_request_not_failed_refuted :
+  let r := run (init 2000000 0 0) [ClientRequestSlow 1 1 CON false; Shutdown; Advance 300000000] in
+  In OShutdownDone (concat (snd r)) /\ (forall o, In o (concat (snd r)) -> settles false 1 o = false) /\
+  resolving (tm (fst r)) = [(1, 1, CON, false)] /\
+  snd (step (fst r) (Resolved 1)) = [OFail 1 LibraryShutdown].
+Proof. exact resolving_request_not_failed_refuted. Qed.
+Print Assumptions C18_resolving_request_not_failed_refuted.
+
 Theorem C18_orphans_check_sound : forall s, orphans s = 0 -> timers_owned s.
 Proof. exact orphans_zero. Qed.
 Print Assumptions C18_orphans_check_sound.
@@ -107,7 +131,7 @@ Proof. exact f13_refuted. Qed.
 Print Assumptions C18_f13_refuted.
 
 (* non-vacuity of C18_shutdown_at_any_moment: a busy history and a continuation satisfy wf_history *)
-Example C18_busy_history_wf : wf_history 0 busy_history [Fire; Advance 300000000; ClientRequest 9 1 CON true; HandlerRespond 0 69 true None; TransportError 1].
+Example C18_busy_history_wf : wf_history 0 busy_history [Fire; Advance 300000000; ClientRequest 9 1 CON true; HandlerRespond 0 69 true None true; Resolved 9; ClientRequestSlow 10 2 NON false; TransportError 1].
 Proof. exact busy_history_wf. Qed.
 
 (* non-vacuity: a reachable busy state (4 outstanding requests of which one running observation and two queued behind
